@@ -19,7 +19,7 @@ ASSUMPTIONS = [
     "per-attempt outcomes, fatal classification and the position of stop() are free choices (case split); retry parameters are concrete per unit, the jitter sample is a free IEEE double (non-NaN) in the lemma unit",
     "when main() raises, the code keeps reconnecting while attempts are left (start() then fails with 'exhausted'): only exactly-once completion and the error polarity are asserted for that case",
 ]
-BOUNDS = {"quick": "<= 4 attempts over 1-2 transports, max_retries in {0,1,2} per transport, 7 outcomes per attempt (refused, transport handshake failure, ABORT, joined then lost cleanly/uncleanly, joined then left, stop() while joining), fatal flag per failure, stop() before any attempt; back-off lemma over all doubles",
+BOUNDS = {"quick": "<= 4 attempts over 1-2 transports, max_retries in {0,1,2} per transport, 7 outcomes per attempt (refused, transport handshake failure, ABORT, joined then lost cleanly/uncleanly, joined then left, stop() while joining), fatal flag per failure, stop() before any attempt; back-off lemma over all doubles; asyncio: outcome hs-fail-early (refusal processed before the create_connection() result reaches the component)",
           "thorough": "<= 6 attempts, 3 transports"}
 EXPECT_COVERS = ["attempt:hs-fail-early", "stop:joining", "end:success", "end:exhausted", "end:stopped", "attempt:refused", "attempt:joined-lost", "fatal", "delay:lemma", "listeners"]
 BUDGET = {"quick": dict(wall_s=300, max_paths=40000, diff_samples=3), "thorough": dict(wall_s=2400, max_paths=500000)}
